@@ -311,15 +311,16 @@ class Spec:
     lean_targets = ["Mhd.Props.C01", "drv_mem"]
     required_theorems = ["Mhd.C01.step_wf", "Mhd.C01.run_wf", "Mhd.C01.windows_inside_arena", "Mhd.C01.recv_writes_inside",
                          "Mhd.C01.reqline_parser_no_fault", "Mhd.C01.field_parser_no_fault", "Mhd.C01.pool_blocks_wf",
-                         "Mhd.C01.connread_no_fault", "Mhd.C01.connread_parser_view_inside", "Mhd.C01.connread_one_arena",
+                         "Mhd.C01.connread_no_fault", "Mhd.C01.connread_parser_view_inside",
                          "Mhd.C01.connread_full_buffer_is_error", "Mhd.C01.grow_stuck_without_guard"]
     trusted_base = ["Lean 4 kernel; propext/Classical.choice/Quot.sound only",
                     "hand-written model lean/Mhd/Model/ConnMem.lean (buffer layer of connection.c over the pool model of C08)",
                     "hand-written composition lean/Mhd/Model/ConnRead.lean (handle_read / handle_idle INIT..HEADERS_RECEIVED / check_and_grow over ConnMem + the C02 parser models)",
                     "white-box correspondence harness/h_mem.c (calls the real static functions), daemon harness harness/h_daemon.c",
                     "gcc ASan/UBSan as the observer of C-level memory errors"]
-    assumptions = ["request line + header section: composition proved (connread_no_fault: parser preconditions established, every buffer operation accepted); "
-                   "body / chunked decoding / pipelining reset: parsers' index safety still carried by C02/C03's theorems next to the buffer-layer theorem",
+    assumptions = ["request line, header section, body (identity / chunked), footers and keep-alive reset: composition proved (connread_no_fault: parser "
+                   "preconditions established, every buffer operation accepted) for every framing / keep-alive decision and every take pattern; "
+                   "cookie parsing, 100-continue, early replies and the reply's write buffer are outside the composed model",
                    "C-level UB that is not an out-of-range index (aliasing, alignment) is only observed by the sanitizers",
                    "the daemon runs in external select/epoll mode in this check; threaded modes are C18"]
 
@@ -414,7 +415,8 @@ static int probe_grow_min_one (void)
                 ("c431", "%d", "(int) MHD_HTTP_REQUEST_HEADER_FIELDS_TOO_LARGE"), ("c501", "%d", "(int) MHD_HTTP_NOT_IMPLEMENTED"),
                 ("hostlen", "%d", "(int) MHD_STATICSTR_LEN_ (MHD_HTTP_HEADER_HOST)"),
                 ("rqhdr", "%d", "(int) sizeof (struct MHD_HTTP_Req_Header)"),
-                ("growmin", "%d", "probe_grow_min_one ()")],
+                ("growmin", "%d", "probe_grow_min_one ()"),
+                ("chdr", "%d", "(int) MHD_CHUNK_HEADER_REASONABLE_LEN")],
                extra=["-O1", "-ffunction-sections", "-fdata-sections", "-Wl,--gc-sections"])
     out = HEADER % "src/microhttpd/internal.h, connection.c" + "namespace Mhd.Gen.ConnMem\n" \
         + "def bufIncSize : Nat := %s\n" % v["inc"] \
@@ -427,6 +429,7 @@ static int probe_grow_min_one (void)
         + "def httpHeaderFieldsTooLarge : Nat := %s\ndef httpNotImplemented : Nat := %s\n" % (v["c431"], v["c501"]) \
         + "def hostNameLen : Nat := %s\n" % v["hostlen"] \
         + "/-- `sizeof (struct MHD_HTTP_Req_Header)`: one pool allocation per request element -/\ndef reqHeaderSize : Nat := %s\n" % v["rqhdr"] \
+        + "def chunkHeaderReasonableLen : Nat := %s\n" % v["chdr"] \
         + "/-- behaviour probe of `try_grow_read_buffer` (pool 64, increment 7, window 32/32 full, required): a mandatory\n" \
           "    grow always adds at least one byte (the `0 == small_inc` guard, fix F32) -/\n" \
           "def growMinOne : Bool := %s\n" % ("true" if v["growmin"] == "1" else "false") \
